@@ -949,6 +949,162 @@ fn in_i16_path(path: &kurbo::BezPath) -> bool {
     })
 }
 
+fn path_tokens(path: &kurbo::BezPath) -> String {
+    let mut t: Vec<String> = vec![];
+    for el in path.elements() {
+        match *el {
+            kurbo::PathEl::MoveTo(p) => t.push(format!("M {} {}", p.x as i64, p.y as i64)),
+            kurbo::PathEl::LineTo(p) => t.push(format!("L {} {}", p.x as i64, p.y as i64)),
+            kurbo::PathEl::QuadTo(c, p) => t.push(format!("Q {} {} {} {}", c.x as i64, c.y as i64, p.x as i64, p.y as i64)),
+            kurbo::PathEl::CurveTo(..) => t.push("C".into()),
+            kurbo::PathEl::ClosePath => t.push("Z".into()),
+        }
+    }
+    if t.is_empty() { "-".into() } else { t.join(" ") }
+}
+
+/// correspondence of `SimpleGlyph::from_bezpath` on integer-coordinate paths (incl. malformed ones)
+fn path_case(s: &mut Session, path: &kurbo::BezPath) {
+    let resp = match catch(|| SimpleGlyph::from_bezpath(path)) {
+        Err(_) => "trap".to_string(),
+        Ok(Err(e)) => match e {
+            write_fonts::tables::glyf::MalformedPath::HasCubic => "err:HasCubic".into(),
+            write_fonts::tables::glyf::MalformedPath::MissingMove => "err:MissingMove".into(),
+            other => format!("err:{other:?}"),
+        },
+        Ok(Ok(g)) => {
+            let lens: Vec<usize> = g.contours.iter().map(|c| c.len()).collect();
+            let pts: Vec<i32> = g
+                .contours
+                .iter()
+                .flat_map(|c| c.iter())
+                .flat_map(|p| [p.x as i32, p.y as i32, p.on_curve as i32])
+                .collect();
+            format!(
+                "{} {} {} {} | {} | {}",
+                g.bbox.x_min, g.bbox.y_min, g.bbox.x_max, g.bbox.y_max, join_i(&lens), join_i(&pts)
+            )
+        }
+    };
+    s.count(&format!("path.glyph:{}", if resp.contains('|') { "ok" } else { resp.as_str() }));
+    s.case("path.glyph", format!("path.glyph {}", path_tokens(path)), resp);
+}
+
+/// arbitrary element soup over a tiny grid: missing moves, cubics, several closes, lines after a
+/// close, single-point contours, duplicate end points, midpoints everywhere
+fn gen_el_soup(rng: &mut Rng) -> kurbo::BezPath {
+    let mut path = kurbo::BezPath::new();
+    let n = rng.below(9);
+    let g = *rng.pick(&[1i64, 2, 2, 3, 100]);
+    let pt = |rng: &mut Rng| (rng.range(-g, g) as f64, rng.range(-g, g) as f64);
+    let mut els: Vec<kurbo::PathEl> = vec![];
+    if rng.chance(7, 8) {
+        els.push(kurbo::PathEl::MoveTo(pt(rng).into()));
+    }
+    for _ in 0..n {
+        let e = match rng.below(12) {
+            0 => kurbo::PathEl::MoveTo(pt(rng).into()),
+            1..=4 => kurbo::PathEl::LineTo(pt(rng).into()),
+            5..=8 => kurbo::PathEl::QuadTo(pt(rng).into(), pt(rng).into()),
+            9 | 10 => kurbo::PathEl::ClosePath,
+            _ => {
+                if rng.chance(1, 4) {
+                    kurbo::PathEl::CurveTo(pt(rng).into(), pt(rng).into(), pt(rng).into())
+                } else {
+                    kurbo::PathEl::ClosePath
+                }
+            }
+        };
+        els.push(e);
+    }
+    // kurbo debug-asserts that a path begins with MoveTo: start with a placeholder MoveTo and
+    // overwrite it through elements_mut
+    let first_is_move = matches!(els.first(), Some(kurbo::PathEl::MoveTo(_)));
+    if !first_is_move && !els.is_empty() {
+        path.push(kurbo::PathEl::MoveTo((0.0, 0.0).into()));
+        for e in &els[1..] {
+            path.push(*e);
+        }
+        path.elements_mut()[0] = els[0];
+    } else {
+        for e in els {
+            path.push(e);
+        }
+    }
+    path
+}
+
+/// pen that records every call with coordinates in 26.6 units (unscaled draws are exact)
+#[derive(Default)]
+struct CmdPen(Vec<String>);
+impl skrifa::outline::OutlinePen for CmdPen {
+    fn move_to(&mut self, x: f32, y: f32) {
+        self.0.push(format!("M {} {}", (x as f64 * 64.0) as i64, (y as f64 * 64.0) as i64));
+    }
+    fn line_to(&mut self, x: f32, y: f32) {
+        self.0.push(format!("L {} {}", (x as f64 * 64.0) as i64, (y as f64 * 64.0) as i64));
+    }
+    fn quad_to(&mut self, a: f32, b: f32, x: f32, y: f32) {
+        self.0.push(format!(
+            "Q {} {} {} {}",
+            (a as f64 * 64.0) as i64, (b as f64 * 64.0) as i64, (x as f64 * 64.0) as i64, (y as f64 * 64.0) as i64
+        ));
+    }
+    fn curve_to(&mut self, _: f32, _: f32, _: f32, _: f32, _: f32, _: f32) {
+        self.0.push("C".into());
+    }
+    fn close(&mut self) {
+        self.0.push("Z".into());
+    }
+}
+
+/// a two-glyph font (empty + `glyph`) assembled with FontBuilder
+fn font_with(glyph: &SimpleGlyph) -> Result<Vec<u8>, String> {
+    use write_fonts::tables::{head::Head, hhea::Hhea, hmtx::Hmtx, hmtx::LongMetric, maxp::Maxp};
+    let mut b = GlyfLocaBuilder::new();
+    b.add_glyph(&Glyph::Empty).map_err(|e| e.to_string())?;
+    b.add_glyph(glyph).map_err(|e| e.to_string())?;
+    let (glyf, loca, fmt) = b.build();
+    let head = Head { units_per_em: 1000, index_to_loc_format: fmt as i16, ..Default::default() };
+    let maxp = Maxp::new(2);
+    let hhea = Hhea { number_of_h_metrics: 2, ..Default::default() };
+    let hmtx = Hmtx::new(vec![LongMetric::new(500, 0), LongMetric::new(500, glyph.bbox.x_min)], vec![]);
+    let mut fb = write_fonts::FontBuilder::new();
+    fb.add_table(&head).map_err(|e| e.to_string())?;
+    fb.add_table(&maxp).map_err(|e| e.to_string())?;
+    fb.add_table(&hhea).map_err(|e| e.to_string())?;
+    fb.add_table(&hmtx).map_err(|e| e.to_string())?;
+    fb.add_table(&glyf).map_err(|e| e.to_string())?;
+    fb.add_table(&loca).map_err(|e| e.to_string())?;
+    Ok(fb.build())
+}
+
+/// correspondence of the whole read + unscaled draw pipeline (skrifa) with `drawUnscaled`
+fn draw_glyph_case(s: &mut Session, glyph: &SimpleGlyph, group: &'static str) {
+    let Ok(Ok(bytes)) = catch(|| write_fonts::dump_table(glyph)) else { return };
+    if bytes.is_empty() {
+        return;
+    }
+    let resp = match catch(|| -> Result<String, String> {
+        let data = font_with(glyph)?;
+        let font = FontRef::new(&data).map_err(|e| e.to_string())?;
+        let og = font.outline_glyphs().get(GlyphId::new(1)).ok_or("no outline")?;
+        let mut pen = CmdPen::default();
+        let r = og.draw(
+            skrifa::outline::DrawSettings::unhinted(skrifa::instance::Size::unscaled(), skrifa::instance::LocationRef::default()),
+            &mut pen,
+        );
+        let tail = if r.is_ok() { "ok" } else { "err" };
+        Ok(if pen.0.is_empty() { tail.to_string() } else { format!("{} {}", pen.0.join(" "), tail) })
+    }) {
+        Ok(Ok(r)) => r,
+        Ok(Err(e)) => format!("fail:{e}"),
+        Err(_) => "trap".into(),
+    };
+    s.count(&format!("draw:{}", if resp.ends_with("ok") { "ok" } else if resp.ends_with("err") { "err" } else { "other" }));
+    s.case(group, format!("draw {}", hex(&bytes)), resp);
+}
+
 fn draw_case(s: &mut Session, path: &kurbo::BezPath) {
     use write_fonts::tables::{head::Head, hhea::Hhea, hmtx::Hmtx, hmtx::LongMetric, maxp::Maxp};
     let svg = path.to_svg();
@@ -1350,7 +1506,29 @@ fn run(cfg: &Config, s: &mut Session) {
             continue;
         }
         drawn += 1;
+        path_case(s, &p);
         draw_case(s, &p);
+        if let Ok(Ok(g)) = catch(|| SimpleGlyph::from_bezpath(&p)) {
+            draw_glyph_case(s, &g, "draw.path");
+        }
+    }
+    // arbitrary on/off sequences (first point off-curve, runs of off-curve points, single points)
+    for _ in 0..400 * scale {
+        let mut g = gen_simple_random(&mut rng, 10);
+        g.contours.retain(|c| !c.is_empty());
+        if rng.chance(1, 2) {
+            for c in g.contours.iter_mut() {
+                for p in c.iter_mut() {
+                    p.0 = p.0.clamp(-16000, 16000);
+                    p.1 = p.1.clamp(-16000, 16000);
+                }
+            }
+        }
+        draw_glyph_case(s, &sg_real(&g), "draw.random");
+    }
+    for _ in 0..1500 * scale {
+        let p = gen_el_soup(&mut rng);
+        path_case(s, &p);
     }
     for svg in [
         "M278,710 L278,470 L998,470 L998,710 Z",
@@ -1359,6 +1537,7 @@ fn run(cfg: &Config, s: &mut Session) {
         "M0,0 Q2,2 4,3 Q6,2 8,0 Z",
         "M20,-100 Q1337,1338 -50,-69 Q13,255 -255,256 Z",
     ] {
+        path_case(s, &kurbo::BezPath::from_svg(svg).unwrap());
         draw_case(s, &kurbo::BezPath::from_svg(svg).unwrap());
     }
 }
